@@ -78,9 +78,9 @@ const (
 	Saturday  = stdtime.Saturday
 )
 
-func Now() Time                      { return stdtime.Now() }
-func Since(t Time) Duration          { return stdtime.Since(t) }
-func Until(t Time) Duration          { return stdtime.Until(t) }
+func Now() Time             { sim.ClockTick(); return stdtime.Now() }
+func Since(t Time) Duration { sim.ClockTick(); return stdtime.Since(t) }
+func Until(t Time) Duration { sim.ClockTick(); return stdtime.Until(t) }
 func Unix(sec int64, ns int64) Time  { return stdtime.Unix(sec, ns) }
 func ParseDuration(s string) (Duration, error) { return stdtime.ParseDuration(s) }
 
